@@ -116,6 +116,24 @@ def foreign_uniform(args, impl, model):
     return "!model-" not in model and not model.startswith("bad-")
 
 
+def split_estimate(args):
+    """f.split of a float with exponent + digits == -2 (the boundary of the `smaller_than_one` estimate, where a
+    digit bound that is one too large changes the path)"""
+    inner = args if (args and "/" in args[0]) else args[1:]
+    if not inner or inner[0].split("/")[-1] != "f.split":
+        return False
+    for a in inner[1:]:
+        m = re.fullmatch(r"f:(\d+):(-?[0-9a-f]+):(-?\d+):(\d+):\w+", a)
+        if m:
+            B, sig, e = int(m.group(1)), abs(int(m.group(2), 16)), int(m.group(3))
+            if sig == 0:
+                return False
+            while sig % B == 0:
+                sig //= B; e += 1
+            return e + digits_in(sig, B) == -2
+    return False
+
+
 # ---------------------------------------------------------------------------------- input classes of the C19 findings
 
 def _inner(args, op):
@@ -548,6 +566,7 @@ def gen_conv_directed(rng, tier):
     (`to_f32_small` vs `to_f32_nontrivial`).  Exact ties, ties plus one low bit at every kind of position (bit 0, word
     boundaries of both word sizes, just below the round bit), all-ones below the round bit; plus C06's own
     single-bit boundary probes for these lengths."""
+    own = []
     for ty, p in (("f32", 24), ("f64", 53)):
         for n in list(range(65, 72)) + [80, 95, 96, 97, 100, 120, 126, 127, 128, 129, 130, 131]:
             for top in ((1 << (p - 1)) | 1, (1 << (p - 1)), (1 << p) - 1, (1 << p) - 2, (1 << (p - 1)) | rng.getrandbits(p - 1)):
@@ -558,9 +577,12 @@ def gen_conv_directed(rng, tier):
                 pats += [base | rb | (1 << j) for j in lows if 0 <= j < n - p - 1]
                 pats += [base | (1 << j) for j in lows if 0 <= j < n - p - 1]
                 for x in pats:
-                    yield Case("cfgall", ["conv/u.to_" + ty, hx(x)])
+                    own.append(Case("cfgall", ["conv/u.to_" + ty, hx(x)]))
                     if rng.random() < 0.4:
-                        yield Case("cfgall", ["conv/i.to_" + ty, hx(-x)])
+                        own.append(Case("cfgall", ["conv/i.to_" + ty, hx(-x)]))
+    if tier == "quick" and len(own) > 1200:
+        own = rng.sample(own, 1200)
+    yield from own
     try:
         c06 = importlib.import_module("vlib.props.c06")
         sub = random.Random(rng.getrandbits(64))
@@ -568,8 +590,8 @@ def gen_conv_directed(rng, tier):
         for c in c06.gen_boundary(sub, "quick"):
             if c.op in ("u.to_f32", "i.to_f32", "u.to_f64", "i.to_f64") and 65 <= int(c.args[0].lstrip("-"), 16).bit_length() <= 131:
                 keep.append(c)
-        if tier == "quick" and len(keep) > 800:
-            keep = sub.sample(keep, 800)
+        if tier == "quick" and len(keep) > 500:
+            keep = sub.sample(keep, 500)
         for c in keep:
             yield Case("cfgall", ["conv/" + c.op] + c.args)
     except Exception as e:
